@@ -94,6 +94,62 @@ about the generated text *under these readings*):
                the `if` branches with exactly these tests are not translated: reaching one gives RSkip
    stop_after_loop
                only the statements up to and including the first loop are translated
+
+Second extension (Intersection._sweep / _SourceState, __getitem__, the cache, the fetch / overlapping wrappers,
+_occurrence_to_interval, _period_windows_with_dt):
+
+Classes as records (spec["records"]: type -> coq record, constructor, fields, default).  An object of a small
+class is a Gallina record; the spec names the record (a type of the model, as `ivl` is) and the translator
+checks it against the class: every attribute any method stores on self must be a declared field, the
+annotations of __init__ must give the declared field types, the class has no bases / decorators / attribute
+hooks.  kind "init": __init__ first stores every field (from expressions that do not mention self), then the
+object exists.  kind "method": a method that updates self returns (self afterwards, result); a method that
+does not (spec "method_of", kind "expr") returns its result; any store on self in it is Unsupported.
+      v.attr                (proj v)
+      v.attr = e            let v := mk (p1 v) .. e .. (pn v) in
+      v.m(args)  / x = v.m(args) / return v.m(args)          (m updates v)
+                            let '(v, m1_) := g_m v args in ..   — only as a statement or unconditionally in the
+                            right-hand side of an assignment / a return, v not used elsewhere in that statement
+Objects are mutable, so NAMES matter.  The accepted ways to hold a record: a fresh object from its
+constructor; a list built by a comprehension of constructor calls; `v = L[i]` (i a constant or a name) which
+makes v an ALIAS into the local list L: every update of v is followed at once by
+`let L := py_set_index L i v in`; when L or i is re-assigned, or L is updated through any(..), v goes out of
+scope.  Unsupported: a second alias into the same list, a second name for a list of records, a copy of such a
+list (comprehension over it, list(), reversed()), append of a record, an update through the target of a
+`for` / comprehension (an item of the list being iterated), an update of a parameter (the caller of the
+generated definition would not see it).
+      x = any(v.m(args) for v in L)            let '(L, x) := any_mut (fun v_ => g_m v_ args) L in
+      x = any(L[i].m(args) for i in IDX)       let '(L, x) := any_mut_at default (fun v_ => ..) L IDX in
+                            (m updates its receiver and returns a bool; the calls stop at the first True:
+                             Model/Loop.v.  all(..) / any([..]) over such calls are Unsupported.)
+      all(e for x in s) / any(..)  (pure)      forallb / existsb;  max / min of a generator: py_max / py_min
+      try: T = next(IT); <statements without calls>  except StopIteration: H      (T, IT: names or fields)
+                            match <items left> with v_ :: it_ => IT := it_; T := v_; .. | [] => H end
+frozenset[int] (type FS): TRUSTED READING — the ascending list of its distinct members, iterated in that
+order (fs_of_list).  CPython iterates the hash table in slot order: ascending when every member is smaller
+than the table size (always for members < 8 and for range(n)); frozenset({1, 8}) iterates 8 first.  Only
+`for`, comprehensions, len and frozenset(..) are accepted on it.
+A `for` directly inside a generator's loop becomes sub_for (its `continue` / `break` only); a generator loop
+whose body calls a generated function with a res result becomes run_for_r.
+Calls of generated functions with a res result (spec calls: res=True, fuel=True): only unconditionally in the
+right-hand side of an assignment, a return, or the iterable of a nested for:
+      x = f(args); rest     res_bind (g_f fuel args) (fun r1_ => let x := r1_ in rest)
+Sum types (spec["sums"]: type -> coq inductive, constructors with fields, and per constructor the text of
+every source expression about such a value: `isinstance(x, int)`, `x is None`, `int(x.timestamp())`, ...).
+The first statement that looks at a sum-typed name becomes `match x with | C fields => ..` and, inside each
+arm, tests on x are the constants the spec gives, so only the branch that runs for C is translated (`raise`
+gives RRaise).  An expression the spec marks undefined for a constructor is Unsupported if it is reached.
+Dictionaries (spec["dicts"]): the list of (key, value) pairs in insertion order with == on keys as a spec
+parameter: {k: v for x in l} = dict_of, d[k] = dict_get, d1.keys() & d2.keys() = keys_inter — TRUSTED READING:
+iterated in the insertion order of d1 (Python leaves the order of that set unspecified).
+Further: tuple assignment `a, b = e1, e2`; tuples of a declared tuple type; list literals; `return ()`;
+enumerate in a comprehension; `with <expr in spec with_ok>:` transparent; effects on several state variables
+(spec effects: vars=[..], optionally res / fuel) and with keyword arguments mapped to Coq text (kwmap);
+kind "proc" with yields=True (result: the state tuple and what was yielded); comparisons of abstract types
+(spec cmpops); `int(x)` of an int; spec annotations; spec file_has (module-level statements the reading of
+a name depends on, e.g. `from datetime import datetime`); STRLIT arguments (string literals that only feed a
+message); spec returned_generator: `def g(): ..; return g()` read as the generator itself; decorators other
+than @override / @property are Unsupported.
 """
 from __future__ import annotations
 
